@@ -26,7 +26,8 @@ Local Open Scope nat_scope.
 (* the scalar leaf types of typelib that the C04 model covers (bool and Pattern are not in [val]) *)
 Inductive leafkind :=
 | LInt | LFloat | LStr | LBytes | LDec | LFrac | LUuid | LPath | LEnum | LDate | LDateTime | LTime | LTimeDelta
-| LBool | LPattern | LNone | LLit (vs : list val).        (* Literal[vs]: the declared values *)
+| LBool | LPattern | LNone | LLit (vs : list val)         (* Literal[vs]: the declared values *)
+| LAny.   (* typing.Any / object / unresolvable: NoOpUnmarshaller / NoOpMarshaller, the identity on EVERY value *)
 
 (* ---------------------------------------------------------------- 1. the marshal side *)
 (* member.__class__ is val.__class__ (enum members, paths, patterns: the class is part of the token) *)
@@ -122,14 +123,14 @@ Definition unm_of (k : leafkind) : val -> res val :=
   | LPath => unm_path rt | LEnum => unm_enum rt | LDate => unm_date rt | LDateTime => unm_datetime rt
   | LTime => unm_time rt | LTimeDelta => unm_timedelta rt
   | LBool => unm_number rt KBool | LPattern => unm_pattern rt | LNone => unm_none rt
-  | LLit vs => unm_literal rt vs end.
+  | LLit vs => unm_literal rt vs | LAny => fun v => Ok v end.
 Definition mar_of (k : leafkind) : val -> res val :=
   match k with
   | LInt => mar_int | LFloat => mar_float | LBool => mar_bool
   | LStr | LDec | LFrac | LUuid | LPath => mar_tostring
   | LBytes => mar_noop | LEnum => mar_enum
   | LDate | LDateTime | LTime | LTimeDelta => mar_iso
-  | LPattern => mar_pattern | LNone => mar_none | LLit vs => mar_literal vs end.
+  | LPattern => mar_pattern | LNone => mar_none | LLit vs => mar_literal vs | LAny => mar_noop end.
 Definition leaf_table (k : leafkind) : (val -> res val) * (val -> res val) := (unm_of k, mar_of k).
 
 (* ---------------------------------------------------------------- 2. classes and ranges *)
@@ -149,7 +150,8 @@ Definition inst (k : leafkind) (x : val) : bool :=
   | LTimeDelta => match x with VTimeDelta _ _ _ => true | _ => false end
   | LPattern => match x with VPattern _ => true | _ => false end
   | LNone => match x with VNone => true | _ => false end
-  | LLit vs => mem rt x vs end.
+  | LLit vs => mem rt x vs
+  | LAny => true end.
 (* what a routine may return: an instance; for an enum class some member (that E(v) is a member of E is the
    interpreter's business), for a Literal a value == to a declared one (C03: resolved in favour of the code) *)
 Definition cls (k : leafkind) (x : val) : bool :=
@@ -162,6 +164,7 @@ Definition exact (k : leafkind) (x : val) : bool :=
   | LTime, VTime _ | LTimeDelta, VTimeDelta _ _ _ | LBool, VBool _ | LPattern, VPattern _ | LNone, VNone => true
   | LEnum, VEnum m => is_member rt m
   | LLit vs, _ => lit_plain x && existsb (val_eqb x) vs
+  | LAny, _ => true
   | _, _ => false end.
 
 (* the value of a member as EnumUnmarshaller can look it up: not a member itself, not a bytes-like value
@@ -179,7 +182,7 @@ Definition pattern_ok (p : tok) : bool :=
 (* inside the range the scalar round trip is stated for; strict: the fold (which is not part of the text) is 0 *)
 Definition range (strict : bool) (k : leafkind) (x : val) : bool :=
   match k, x with
-  | LLit _, _ => true                         (* a declared value comes back whatever it is *)
+  | LLit _, _ | LAny, _ => true               (* a declared value / anything comes back whatever it is *)
   | _, VEnum m => enum_value_ok m
   | _, VPattern p => pattern_ok p
   | _, VDate y m d => valid_date y m d
@@ -196,7 +199,7 @@ Definition prim_val (x : val) : bool :=
    member's value is, NoOpMarshaller[bytes] its input, PatternMarshaller bytes for a bytes pattern, LiteralMarshaller
    a declared value) *)
 Definition robust_kind (k : leafkind) : bool :=
-  match k with LEnum | LBytes | LPattern => false | LLit vs => forallb prim_val vs | _ => true end.
+  match k with LEnum | LBytes | LPattern | LAny => false | LLit vs => forallb prim_val vs | _ => true end.
 
 End Marshallers.
 
@@ -276,15 +279,21 @@ Definition lift (r : res val) : Core.res Core.pv :=
 Definition run_leaf (f : val -> res val) (p : Core.pv) : Core.res Core.pv :=
   match decp p with Some x => lift (f x) | None => Core.Unmodelled end.
 
+(* a pass-through leaf (LAny) hands EVERY core value back, containers and instances included; a leaf id the table does
+   not know keeps the routine of the base runtime *)
 Definition b_leaf_u (s : nat) (p : Core.pv) : Core.res Core.pv :=
-  match kind_of s with Some k => run_leaf (unm_of (rts s) k) p | None => Core.Unmodelled end.
+  match kind_of s with
+  | Some LAny => Core.Ok p
+  | Some k => run_leaf (unm_of (rts s) k) p
+  | None => Core.leaf_u base s p end.
 (* LiteralMarshaller on a container or an object outside the coding: no declared value has its class (the declared
    values are in the coding): ValueError *)
 Definition b_leaf_m (s : nat) (p : Core.pv) : Core.res Core.pv :=
   match kind_of s with
   | Some (LLit vs) => match decp p with Some x => lift (mar_literal (rts s) vs x) | None => Core.Raise Core.EValue end
+  | Some LAny => Core.Ok p
   | Some k => run_leaf (mar_of (rts s) ev k) p
-  | None => Core.Unmodelled end.
+  | None => Core.leaf_m base s p end.
 Definition b_none : Core.pv := Core.PAtom (enc C VNone).
 (* a container, or an object that is not in the coding, is not None (None is in the coding): decode hands it back or
    raises, then ValueError *)
@@ -311,13 +320,18 @@ Definition on_scalar (f : val -> bool) (p : Core.pv) : bool :=
 
 (* leaf validity: v stands for a value of kind s inside its range *)
 Definition lv (strict : bool) (s : nat) (v : Core.pv) : bool :=
-  match kind_of s with Some k => on_scalar (in_kind (rts s) ev strict k) v | None => false end.
+  match kind_of s with
+  | Some LAny => true                          (* every core value is valid at a pass-through leaf *)
+  | Some k => on_scalar (in_kind (rts s) ev strict k) v
+  | None => false end.
 (* ... an instance of the class of leaf type s (isinstance: what the pass-through needs) *)
 Definition lv_inst (s : nat) (v : Core.pv) : bool :=
-  match kind_of s with Some k => on_scalar (inst (rts s) k) v | None => false end.
-(* v is of the class of leaf type s (C03's leaf_ok) *)
+  match kind_of s with Some LAny => true | Some k => on_scalar (inst (rts s) k) v | None => false end.
+(* v is of the class of leaf type s (C03's leaf_ok); nothing is claimed at a leaf the table does not know *)
 Definition leaf_class_ok (s : nat) (v : Core.pv) : bool :=
-  match kind_of s with Some k => on_scalar (cls (rts s) k) v | None => false end.
+  match kind_of s with Some LAny => true | Some k => on_scalar (cls (rts s) k) v | None => true end.
+(* the pass-through leaves (C05's noop_leaf) *)
+Definition any_leaf (s : nat) : bool := match kind_of s with Some LAny => true | _ => false end.
 (* C06's parameters *)
 Definition prim_atom (a : nat) : bool := on_scalar prim_val (Core.PAtom a).
 Definition robust_leaf (s : nat) : bool := match kind_of s with Some k => robust_kind k | None => false end.
@@ -330,7 +344,7 @@ Definition lit_member (s : nat) (v : Core.pv) : bool :=
 
 (* equality up to the fold of the values they stand for *)
 Definition sim_pv (v v' : Core.pv) : Prop :=
-  exists x y, decp v = Some x /\ decp v' = Some y /\ sim_val x y.
+  v = v' \/ exists x y, decp v = Some x /\ decp v' = Some y /\ sim_val x y.
 
 End Bridge.
 
@@ -475,12 +489,12 @@ Definition bytes_enum_value (m : tok) : res val :=
   if String.eqb m "E.c"%string then Ok (VText CBytes "yy"%string) else Raise EOther.
 
 (* the example instance: leaf ids 0 int, 1 date, 2 timedelta, 3 Decimal, 4 enum (str values), 5 datetime, 6 str,
-   7 bool, 8 Literal[1, "a", None], 9 Pattern *)
+   7 bool, 8 Literal[1, "a", None], 9 Pattern, 10 typing.Any *)
 Definition ex_lit : list val := [VInt 1; VText CStr "a"%string; VNone].
 Definition ex_kinds (s : nat) : option leafkind :=
   match s with 0 => Some LInt | 1 => Some LDate | 2 => Some LTimeDelta | 3 => Some LDec | 4 => Some LEnum
              | 5 => Some LDateTime | 6 => Some LStr | 7 => Some LBool | 8 => Some (LLit ex_lit) | 9 => Some LPattern
-             | _ => None end.
+             | 10 => Some LAny | _ => None end.
 Definition ex_ev (m : tok) : res val := Ok (VText CStr m).            (* the toy enum: the member's value is its token *)
 Definition ex_base : Core.runtime := {|
   Core.leaf_u := fun _ _ => Core.Unmodelled; Core.leaf_m := fun _ _ => Core.Unmodelled;
@@ -505,6 +519,10 @@ Definition ex_wire : list val :=
   [VInt (-12345); VText CStr "2024-02-29"%string; VText CStr "-P7DT22H58M58.999500S"%string; VText CStr "1.50"%string; VText CStr "one"%string;
    VText CStr "2020-01-01T17:00:00.999999+05:30"%string; VText CStr "kids"%string; VText CStr "null"%string;
    VBool true; VText CStr "a"%string; VNone; VText CStr "x+"%string].
+(* tuple[Any, int] with a set at the Any position *)
+Definition ex_any_T : Core.ty := Core.TTuple [Core.TLeaf 10; Core.TLeaf 0].
+Definition ex_any_pv (C : coding) (k : Core.seqkind) : Core.pv :=
+  Core.PSeq k [Core.PSeq Core.KSet [Core.PAtom 7; Core.PSeq Core.KTuple []]; encp C (VInt 1)].
 Definition ex_pv (C : coding) (k : Core.seqkind) (l : list val) : Core.pv :=
   Core.PSeq Core.KList [Core.PSeq k (map (encp C) l)].
 
@@ -532,6 +550,20 @@ Record SShapeLaws (T : sshape) (rt : Runtime) : Prop := {
   ss_nontext : forall v, textual rt v = false -> S.is_text (v_ser T v) = false;
   ss_back : forall v, textual rt v = false -> v_back T (v_ser T v) = Some v
 }.
+(* ... and for TEXT: [cp s] are the code points of the text s; a text carrier of the scalar model is the carrier of the
+   text model (hashable carriers: the ones uuid_text_not_loadable speaks about), and the decoded str reads back *)
+Record STextLaws (T : sshape) (srt : S.Runtime) (rt : Runtime) (cp : string -> S.str) : Prop := {
+  st_carrier : forall c s, hashable c = true -> v_ser T (text rt c s) = S.carrier srt (
+    match c with CStr => S.CStr | CBytes => S.CBytes | CBytearray => S.CBytearray | CMvBytes => S.CMemviewRO
+               | CMvBytearray => S.CMemviewRW end) (cp s);
+  st_back : forall s, v_back T (S.PText S.CStr (cp s)) = Some (VText CStr s)
+}.
+(* the interpreter facts about the text of a UUID (36 characters with hyphens, or whatever str(u) is): it can be
+   encoded, the JSON decoder rejects it, ast.literal_eval rejects it *)
+Definition UuidTextFacts (srt : S.Runtime) (rt : Runtime) (cp : string -> S.str) : Prop :=
+  forall u, S.encodable (cp (canon_text rt (VUuid u))) = true /\
+            (exists e, S.json_loads_str srt (cp (canon_text rt (VUuid u))) = S.Raise e) /\
+            (exists e, S.literal_eval srt (cp (canon_text rt (VUuid u))) = S.Raise e).
 Definition with_load (rt : Runtime) (f : val -> res val) : Runtime := {|
   utf8_decode := utf8_decode rt; utf8_encode := utf8_encode rt; canon_text := canon_text rt;
   int_of_str := int_of_str rt; float_of_str := float_of_str rt; dec_of_str := dec_of_str rt;
